@@ -436,12 +436,9 @@ pub fn check(s: &Session, h: &History, stats: &mut Stats) -> Option<Violation> {
                 let any_panic = h.faults.get("query_crash").copied().unwrap_or(0) > 0
                     || resp.values().flatten().any(|x| x["error"]["code"].as_i64() == Some(-32603));
                 if !cause && !any_panic {
-                    let Op::Request { method, .. } = &s.ops[*i].op else { continue };
-                    return Some(Violation {
-                        oracle: "cancellation_has_a_cause".into(),
-                        kinds: vec![format!("req.{method}")],
-                        detail: format!("request id {id} ({method}) was answered 'cancelled' although no edit, open or file event was sent between the request and its answer"),
-                    });
+                    // Counted, not reported: the statement allows "a cancellation/error" for any
+                    // request; demanding a visible cause would be more than it says.
+                    *stats.window_probes.entry("cancelled_without_visible_cause".into()).or_insert(0) += 1;
                 }
             } else {
                 errored.push(*i);
@@ -482,14 +479,11 @@ pub fn check(s: &Session, h: &History, stats: &mut Stats) -> Option<Violation> {
                     stats.oracle_unstable += 1;
                     continue;
                 }
-                return Some(Violation {
-                    oracle: "error_only_where_sequential_errs".into(),
-                    kinds: vec![format!("req.{method}")],
-                    detail: format!(
-                        "request id {id} ({method}) was answered with the error {} but a sequential server holding the documents as of the request answers with a result",
-                        got["error"].to_string().chars().take(200).collect::<String>()
-                    ),
-                });
+                // Counted, not reported: "a cancellation/error" is a legal answer to any request
+                // (a server may, e.g., answer ContentModified where this one answers
+                // RequestCancelled); only a *result* is tied to a version by the statement.
+                let _ = method;
+                *stats.window_probes.entry("error_where_sequential_server_answers".into()).or_insert(0) += 1;
             }
         }
     }
